@@ -346,6 +346,149 @@ theorem C17_schedulable_upload {K : Type} (i : Nat) (m' : Mgr) (db : Db K)
     · simp at h0
     · exact ⟨a, b, c, d⟩
 
+/-! ### the read itself is split at its suspension points; caches left by another release of the writer
+
+`read_cache()` awaits the listeners of `TransferAddedEvent` after every entry it registers. While one of them is
+suspended anything else can run: `add()` / `download()` of an identity the loop has not reached yet (an
+application restoring its wish list next to `client.start()`), further writes, attribute changes. The histories
+below contain `loadCall order` (the process ends, a new manager starts loading; `order` = the order in which
+`shelve` hands out the entries, the environment's choice) and `loadStep` (the suspended listener resumes) among
+all the other operations; `C17_reports_match_list` above already covers them (identities stay pairwise distinct
+at every point of every such history). -/
+
+/-- **Each exactly once — also when the read is interleaved with other operations.** Start loading ANY database
+(any key format, one transfer under two keys, …) in any order, let any operations that are not removals happen
+between the phases of the read (additions of identities the loop has yet to reach, of other identities, suspended
+additions, attribute changes, writes, environment rewrites), until the read has ended. Then the manager lists every
+identity once, every transfer of the cache is there, and the list agrees with what was reported. -/
+theorem C17_load_interleaved {K : Type} [DecidableEq K] (H : ByteArray → K) (s : Sys K) (order : List Ident)
+    (ops : List Op) (hk : ∀ o ∈ ops, o.keeps = true)
+    (hload : (step H s (.loadCall order)).2 ≠ .loadError)
+    (hdone : (run H (step H s (.loadCall order)).1 ops).loading = none) :
+    let e := run H (step H s (.loadCall order)).1 ops
+    (e.mgr.transfers.map ident).Nodup ∧
+    (∀ r ∈ s.db, ∀ x, restore r.2 = some x → ident x ∈ e.mgr.transfers.map ident) ∧
+    (∀ i ∈ e.there, i ∈ e.mgr.transfers.map ident) ∧ (∀ i ∈ e.gone, i ∉ e.mgr.transfers.map ident) := by
+  intro e
+  have hinv : GhostInv e := inv_run H ops (inv_doLoadCall s order)
+  refine ⟨hinv.nodup, ?_, hinv.there, hinv.gone⟩
+  intro r hr x hx
+  cases hl : readAll s.db with
+  | none =>
+    exfalso; apply hload
+    simp only [step, doLoadCall, hl]
+  | some l =>
+    -- after the first phase every entry is listed or still to be reached
+    have h0 : LoadInv (l.map ident) (step H s (.loadCall order)).1 := by
+      simp only [step, doLoadCall, hl]
+      intro i hi
+      apply (loadRun_spec _ _).2
+      obtain ⟨y, hy, rfl⟩ := List.mem_map.1 hi
+      exact List.mem_map.2 ⟨y, (mem_readOrder order l y).2 hy, rfl⟩
+    have h1 : LoadInv (l.map ident) e := loadInv_run H ops h0 hk
+    obtain ⟨y, hy, hy'⟩ := restoreAll_complete hl r.2 (List.mem_map.2 ⟨r, hr, rfl⟩)
+    rw [hx] at hy'
+    cases hy'
+    rcases h1 (ident x) (List.mem_map.2 ⟨x, hy, rfl⟩) with h2 | ⟨rem, h2, _⟩
+    · exact h2
+    · rw [hdone] at h2; cases h2
+
+/-- **The phases add up to the load.** When nothing else runs between the phases of the read, the manager it ends
+with is exactly the one the uninterrupted `load_data()` builds from the same entries in the same order — so all that
+is proved of `restart` above (`C17_restart`, `C17_no_in_progress`, `C17_listener_attached`, `C17_schedulable_*`)
+holds of a read that merely *suspends*; for `order = []` it is the manager of `restart` itself. -/
+theorem C17_load_phases_add_up {K : Type} [DecidableEq K] (H : ByteArray → K) (s : Sys K) (order : List Ident)
+    (n : Nat) (l : List Transfer) (hl : readAll s.db = some l) :
+    let e := run H (step H s (.loadCall order)).1 (List.replicate n .loadStep)
+    (e.loading = none → e.mgr = (Mgr.empty mgrId).addAll (readOrder order l)) ∧
+    (order = [] → e.loading = none → e.mgr = (step H s .restart).1.mgr) := by
+  intro e
+  have key : e.loading = none → e.mgr = (Mgr.empty mgrId).addAll (readOrder order l) := by
+    intro hn
+    have h := run_replicate_loadStep H n (step H s (.loadCall order)).1
+    have h0 : (step H s (.loadCall order)).1.mgr.addAll ((step H s (.loadCall order)).1.loading.getD [])
+        = (Mgr.empty mgrId).addAll (readOrder order l) := by
+      simp only [step, doLoadCall, hl]
+      exact loadRun_addAll _ _
+    rw [h0] at h
+    have hn' : e.loading.getD [] = [] := by rw [hn]; rfl
+    rw [← h, hn']
+    rfl
+  refine ⟨key, ?_⟩
+  intro ho hn
+  rw [key hn, ho]
+  simp only [step, doRestart, Mgr.load, hl, Option.map_some, readOrder]
+
+/-- **What a phase of the read registers** is the repaired image of a cache entry: remote-queue mark cleared, not
+in progress, state by the repair table — exactly as in the uninterrupted load (`C17_no_in_progress`). -/
+theorem C17_load_phase_marks {K : Type} (s : Sys K) (l : List Transfer) :
+    ∀ t ∈ (loadRun s l).1.mgr.transfers, t ∈ s.mgr.transfers ∨
+      ∃ x ∈ l, t = attach s.mgr.id (repair x).1 ∧ t.remotelyQueued = false ∧ isProcessing t.state = false ∧
+        t.state = repairState x.state (isTransfered x) := by
+  intro t ht
+  rcases loadRun_registers l s t ht with h | ⟨x, hx, rfl⟩
+  · exact .inl h
+  · have hs : (attach s.mgr.id (repair x).1).state = repairState x.state (isTransfered x) := repair_state x
+    refine .inr ⟨x, hx, rfl, repair_remotelyQueued x, ?_, hs⟩
+    rw [hs]; exact not_processing_repairState _ _
+
+/-- **A cache written by the previous release.** Whatever the cache holds, put into it the entry the pinned writer
+(`persist` = `Transfer.__getstate__` as pinned by `C17_fields_pinned`) leaves for ANY transfer `t` — any state, the
+remote-queue mark set or not, every attribute present — under the current or the pre-fix key, and start a new
+client on it. If the load succeeds: `t`'s identity is listed, every identity once, every loaded transfer has its
+remote-queue mark cleared, is not in progress and reports to the manager, and the scheduler's choice of downloads
+depends on user status, direction, state and fail reason only (the stored mark blocks nothing). -/
+theorem C17_previous_release_cache {K : Type} [DecidableEq K] (H : ByteArray → K) (s : Sys K) (t : Transfer)
+    (oldKey : Bool) :
+    let r := step H (step H s (.prev t oldKey)).1 .restart
+    r.2 = .loaded →
+      ident t ∈ r.1.mgr.transfers.map ident ∧ (r.1.mgr.transfers.map ident).Nodup ∧
+      (∀ x ∈ r.1.mgr.transfers,
+        x.remotelyQueued = false ∧ isProcessing x.state = false ∧ x.listeners = [mgrId] ∧ x.tasks = 0) ∧
+      (∀ (offline : Str → Bool), ∀ x ∈ r.1.mgr.transfers,
+        (x ∈ (eligible offline r.1.mgr.transfers).1 ↔
+          (offline x.user = false ∧ x.dir = .download ∧
+            (x.state = .queued ∨ x.state = .incomplete ∨ (x.state = .failed ∧ x.failReason = none))))) := by
+  intro r hr
+  let s1 := (step H s (.prev t oldKey)).1
+  have hnd : (r.1.mgr.transfers.map ident).Nodup := (inv_doRestart s1).nodup
+  have hr1 : r = doRestart s1 := rfl
+  cases hm : (Mgr.empty mgrId).load s1.db with
+  | none =>
+    rw [hr1] at hr
+    unfold doRestart at hr
+    rw [hm] at hr
+    cases hr
+  | some m =>
+    have hmgr : r.1.mgr = m := by
+      rw [hr1]; unfold doRestart; rw [hm]
+    rw [hmgr] at hnd ⊢
+    refine ⟨?_, hnd, ?_, ?_⟩
+    · -- the entry just written is read back
+      unfold Mgr.load at hm
+      cases hl : readAll s1.db with
+      | none => simp [hl] at hm
+      | some l =>
+        simp only [hl, Option.map_some, Option.some.injEq] at hm
+        subst hm
+        have hmem : persist t ∈ s1.db.map (·.2) := by
+          show persist t ∈ (Db.put s.db _ (persist t)).map (·.2)
+          simp [Db.put]
+        obtain ⟨y, hy, hy'⟩ := restoreAll_complete hl (persist t) hmem
+        rw [restore_persist] at hy'
+        cases hy'
+        exact addAll_complete l _ (canon t) hy
+    · intro x hx
+      obtain h1 | ⟨hp, hq, _⟩ := C17_no_in_progress _ m s1.db hm x hx
+      · simp [Mgr.empty] at h1
+      obtain h2 | ⟨hl, htk, _⟩ := (C17_listener_attached _ m s1.db hm).1 x hx
+      · simp [Mgr.empty] at h2
+      exact ⟨hq, hp, hl, htk⟩
+    · intro offline x hx
+      obtain h1 | h1 := C17_schedulable_download _ m s1.db hm offline x hx
+      · simp [Mgr.empty] at h1
+      · exact h1
+
 /-! ### Non-vacuity: the hypotheses are met by non-trivial concrete states -/
 
 /-- two downloads whose *unpatched* keys collide, persisted in the middle of their life -/
@@ -376,6 +519,19 @@ example :
     s.there = [ident exA] ∧ s.gone = [ident exB] ∧ s.pending.length = 2 ∧ (s.mgr.transfers.map ident) = [ident exA] := by
   decide
 example : GhostInv (Sys.init : Sys ByteArray) := inv_init
+
+/-- a history in which the read is interleaved: the cache holds `exA` (under both key formats) and `exB` (as the
+previous release left it, remote-queue mark set); the loop registers `exB` and is suspended; `exA` — which the loop
+has yet to reach — is added by another task; the loop resumes and ends. Each identity is listed once. -/
+example :
+    let s := run (id : ByteArray → ByteArray) Sys.init
+      [.add exA, .store, .dupKey (ident exA), .prev exB false,
+       .loadCall [ident exB, ident exA], .add { exA with state := .virgin, remotelyQueued := false }, .loadStep]
+    s.loading = none ∧ s.mgr.transfers.map ident = [ident exB, ident exA] ∧ s.mgr.addedEvents = 2 ∧
+      s.db.length = 3 ∧ s.mgr.transfers.all (fun t => !t.remotelyQueued) = true := by
+  decide
+example : Op.keeps (.add exA) = true ∧ Op.keeps .loadStep = true ∧ Op.keeps .store = true ∧
+    Op.keeps (.rm (ident exA) 0) = false ∧ Op.keeps .restart = false := by decide
 example : Op.quiet (.rmStep (ident exA)) = true ∧ Op.quiet (.addCall exA) = true ∧ Op.quiet .store = false := by decide
 
 end AioslskVerif.C17
